@@ -11,90 +11,90 @@ NOTE = ("Trusted base: the AST instrumenter (cmd/verif-instr; self-tested by run
         "Preemption only at instrumented visible operations; sampling of schedules, not enumeration.")
 
 PROPS = {
-    "C01": dict(T(24000, 40, 1500000, 900),
+    "C01": dict(T(80000, 60, 1500000, 900),
                 text="Seeded exploration of writer/sender interleavings on the real channel code: every run parses the bytes handed to the simulated transport back into the unique payloads of the calls and checks whole/unmodified/at-most-once/per-writer order/real-time order/no bytes from failed calls, and that every transport write ends on a payload boundary. Catches what one-writer tests cannot: losses, duplicates, reorderings and torn payloads that need specific preemptions.",
                 note=NOTE,
                 rule="Scenario: 1-4 writer tasks x 1-5 calls over the five low-level entry points, payload sizes 0..70001, async queue sizes {1,2,3,8,64} in both wait modes or the synchronous channel; transport accepts everything."),
-    "C02": dict(T(24000, 40, 1500000, 900),
+    "C02": dict(T(100000, 60, 1500000, 900),
                 text="Bounded liveness judged at simulator quiescence (no runnable task and no timer for a fake hour): every accepted payload is on the wire and flushed, every call returned. The lost-wake-up window between the sender's last queue check and its release is reached by preempting at the instrumented atomics.",
                 note=NOTE,
                 rule="Scenario: writers finish, nothing else touches the channel; judged at quiescence."),
-    "C06": dict(T(24000, 40, 1500000, 900),
+    "C06": dict(T(100000, 60, 1500000, 900),
                 text="Seeded exploration including stall decisions (fake time passes while a task is descheduled): all payloads accepted before Close was invoked must be written and flushed before the transport close event, and no close event may fall inside a transport write of the sender. Found the pinned-tree defect (fixed in /repo).",
                 note=NOTE + " Bounded-wait channels are exempted when Close really waited its whole grace period (>= 1 s of fake time), as the property states.",
                 rule="Scenario: all writers return, then one Close (user task or handler); stall decisions (1ms..1.1s of fake time while tasks are runnable) enabled."),
-    "C10": dict(T(16000, 40, 1000000, 900),
+    "C10": dict(T(60000, 60, 1000000, 900),
                 text="Callers poison their buffers immediately after each call returns while scribbler tasks take, poison and return pooled buffers of every size class; the simulated pool prefers handing a just-recycled buffer to somebody else. The wire must still parse into the payloads as they were at call time.",
                 note=NOTE + " sync.Pool is replaced by a deterministic pool whose hit/miss/which-object decisions come from the tape.",
                 rule="Scenario: callers overwrite their buffers right after each call; 0-2 scribbler tasks take, poison and return pooled buffers of every size class."),
-    "C11": dict(T(16000, 40, 1000000, 900),
+    "C11": dict(T(80000, 60, 1000000, 900),
                 text="After a Close call (nil, sentinel or wrapped error; from a task or from a handler) has returned, 1-3 writes over all seven entry points must return a non-nil error with n == 0 and nothing may reach the transport; select orders come from the tape, so the 'closed' vs 'queue has room' choice is explored deliberately. Found the pinned-tree defects (fixed in /repo).",
                 note=NOTE,
                 rule="Scenario: Close(nil|sentinel|wrapped) from a task or a handler returns, then 1-3 writes over all seven entry points; optional writers overlapping the Close."),
-    "C18": dict(T(16000, 40, 1000000, 900),
+    "C18": dict(T(80000, 60, 1000000, 900),
                 text="Writers against a sender that is stalled inside the transport (released later on the fake clock) or merely slow: non-blocking mode must never park (the scheduler observes blocked tasks), queue-full only when the queue can have been full, blocking mode returns only success / context error / close error and transmits nothing on error, accepted-minus-sent never exceeds queue size + batch.",
                 note=NOTE + " The queue-full and backlog clauses are necessary conditions computed from call and transport events (sound, not exact).",
                 rule="Scenario: sender stalled in the transport or slow; plain and Ctx entry points with background / cancelled / expiring contexts; optional concurrent Close."),
 }
 
-PROPS["C05"] = dict(T(16000, 40, 1000000, 900),
+PROPS["C05"] = dict(T(100000, 60, 1000000, 900),
     text="1-4 concurrent closers of seven kinds (user task, handler on a user event, handler on an inbound message, transport read failure, transport write failure, holder.CloseAll, Bootstrap.Shutdown) with distinct errors against in-flight reads and writes on a channel created through the real Bootstrap.Connect: active once and complete before Connect returns and before the first read, reads strictly sequential, transport closed and inactive delivered exactly once, inactive carries the argument of the Close call whose task closed the transport, IsActive false after any Close returned, context cancelled after the effective Close returned, read loop gone at quiescence.",
     note=NOTE,
     rule="Scenario: real Bootstrap + channelHolder over the simulated factory; closers drawn from seven kinds; 0-2 writers; 0-2 inbound chunks.")
 
-PROPS["C12"] = dict(T(6000, 60, 300000, 1200), race=True,
+PROPS["C12"] = dict(T(40000, 90, 300000, 1200), race=True,
     text="The same scenario families as the behavioural checks (channel writers/closers/pokers, the C05 closer mix on a real Bootstrap, bootstrap listen/connect/shutdown histories, idle-handler timers, pool scribblers) run in a race-instrumented build under the deterministic scheduler, whose own hand-offs are hidden from ThreadSanitizer (runtime.RaceDisable around park/resume, //go:norace runtime), so two accesses with no program synchronisation between them are reported however far apart they ran. Only reports with at least one access inside the repository count; the schedule that produced a report replays exactly.",
     note=NOTE + " Happens-before detection: a race is reported only in schedules where both accesses actually execute; sync.Pool/sync.Map replacements add (over-approximated) happens-before edges like the originals.",
     technique="deterministic simulation (seeded run-token scheduler, instrumented real code, simulated transport) with ThreadSanitizer as the oracle in a -race build",
     rule="Scenario families borrowed from C01/C05/C11/C13/C20 with their functional oracles muted; violation = race report with an access in repository code, signature = the pair of functions.")
 
-PROPS["C13"] = dict(T(16000, 40, 1000000, 900),
+PROPS["C13"] = dict(T(100000, 60, 1000000, 900),
     text="Histories of 0-3 listeners (Async, Sync in a task, or never started; optional Listener.Close), 0-3 Bootstrap.Connect calls (loop-back to an own listener or to a silent peer), 0-2 external dials and one Shutdown placed anywhere by the schedule, on a real Bootstrap + channelHolder over the simulated factory. At quiescence: context cancelled, every acceptor ever created is closed with no Accept outstanding, every started accept loop ended (with the server-closed error unless the listener was closed explicitly), every transport ever created is closed exactly once with inactive delivered exactly once, no executor task is left blocked. Found the pinned-tree defect (listener started after/while Shutdown keeps a live acceptor).",
     note=NOTE,
     rule="Scenario: real Bootstrap + holder; listeners/connects/dials/Shutdown as concurrent tasks; peers stay silent so that only Shutdown can end a channel.")
 
-PROPS["C20"] = dict(T(12000, 40, 800000, 900),
+PROPS["C20"] = dict(T(60000, 60, 800000, 900),
     text="Real ReadIdleHandler/WriteIdleHandler (1s/1.5s/3s) between two probes on a real channel; a peer and a writer produce messages at fake-clock gaps chosen around the expiry (d-1ms, d, d+1ms, bursts, silence up to 3.5d); Close after a final silence; optional panicking event handler; optional stall decisions. Timer callbacks run as scheduled tasks, so Close can land while a callback is parked between its expiry check and Trigger. Oracle: every idle event is at least d after activation and after every message that certainly passed the handler before the timer fired; events keep coming during silence (stall-free runs); at most the in-flight callback fires after inactive and the run reaches quiescence (timer released); a panicking event handler yields an exception delivery and no dead timer task.",
     note=NOTE + " Timing clauses use lower/upper bounds of the handler's internal time stamps taken by probes on either side of it, so they are necessary conditions (sound).",
     rule="Scenario: idle handlers on the synctest fake clock; message gaps relative to the idle time; Close after silence; panic injection on the k-th idle event.")
 
-PROPS["C07"] = dict(T(16000, 40, 1000000, 900), level="fault_enumeration",
+PROPS["C07"] = dict(T(80000, 60, 1000000, 900), level="fault_enumeration",
     text="One fault plan per run, drawn from the product of injection points (handler position x event kind x entry point: read loop, Channel.Write, Channel.Trigger, ctx.Write, ctx.Trigger, idle-timer callback) x panic value kind (error, string, runtime error, timeout and non-timeout net.Error) x exception-handler policies (forward/swallow/close per handler) x channel state (open, closing, closed), or a transport Write/Writev/Flush/Read failing at the k-th call; schedules sampled per plan. Oracle: no panic escapes into the calling task or kills an executor/timer task; while open, the exception visits the exception handlers once each in pipeline order up to the first that does not forward, carrying the panic value itself when it is an error; unconsumed => inactive with that value; sender write failure and unswallowed read failure => inactive with the transport error; a consumed fault leaves the channel usable (write + read round trip).",
     note=NOTE + " Exception handlers that themselves panic are outside the property and not generated. The per-point counters in the evidence show which injection points were hit.",
     technique="deterministic simulation with fault injection: seeded fault plans (handler panics, transport errors) x seeded schedules on the instrumented real code",
     rule="Scenario: 1-4 probe handlers with per-handler exception policy; one injected panic or transport failure; distinct = distinct (fault plan, schedule).")
 
-PROPS["C09"] = dict(T(16000, 40, 1000000, 900),
+PROPS["C09"] = dict(T(60000, 60, 1000000, 900),
     text="2-4 writer tasks send 1-3 messages each through Channel.Write or ctx.Write on one channel, all messages of a run using one carrier (what reaches the head: []byte, [][]byte, *bytes.Buffer, single-write io.WriterTo, single-read io.Reader, multi-write io.WriterTo, multi-read io.Reader, string) bare or below a shipped codec (delimiter, delimiter+text, length-field, varint), sizes below/at/above the 1024-byte streaming chunk, sync and queued channels. The wire must be a concatenation of whole reference encodings (harness' own encoder). Multi-write carriers violate this by construction on the pinned tree: recorded as known findings per carrier class; every other class is fully checked.",
     note=NOTE + " Known findings (known_findings.json): messages that the head streams as several independent writes (io.Reader needing several reads or > 1024 bytes, chunking io.WriterTo, and everything the delimiter codec turns into a MultiReader, including the README pipeline delimiter+text).",
     rule="Scenario: concurrent Channel.Write/ctx.Write of uniquely identifiable messages; violation class = pipeline + carrier + sync/async.")
 
-PROPS["C14"] = dict(T(12000, 40, 600000, 900),
+PROPS["C14"] = dict(T(40000, 60, 600000, 900),
     text="One writer sends 1-4 messages through Channel.Write on sync and queued channels, carriers []byte, [][]byte (with empty elements), *bytes.Buffer, single-write io.WriterTo, chunk-buffer-reusing io.WriterTo, io.Reader with tape-driven short reads / zero-length reads / data-with-EOF, sizes 0..70001, plus unsupported types (int, struct, nil); the background sender interleaves with the streaming loop. Transport bytes must equal the concatenated contents; an unsupported type raises exactly one exception and transmits nothing. The conversion helpers (ToBytes, ToReader, CountOf, ByteReader, StealBytes) are evaluated on fresh copies of the same carriers against reference conversions; that clause has no schedule in it and is reported separately (helper_evaluations). Found the StealBytes defect (fixed in /repo).",
     note=NOTE + " The helper clause is input-driven (no schedule, clock or fault enters); only the transmission clause is decided by simulation proper.",
     rule="Scenario: single writer, message carriers and reader behaviours from the tape; distinct = distinct (carrier plan, schedule).")
 
-PROPS["C17"] = dict(T(20000, 40, 1000000, 900),
+PROPS["C17"] = dict(T(80000, 60, 1000000, 900),
     text="transport.NewTransport over a simulated net.Conn for the four variants x buffer sizes {0,1,7,16,64,4096}: a writer task issues a seeded sequence of Write/Writev/Flush with payload sizes around the buffer sizes while a peer feeds inbound chunks that a reader task pulls through the wrapper with varying buffer sizes and tape-driven short reads. After every Flush the peer has received exactly the bytes written so far; at all times what the peer has is a prefix of what was written in call order; Read yields exactly the peer's bytes.",
     note=NOTE + " Nothing is asserted about bytes still buffered without a Flush (the property speaks only of what holds once Flush has returned).",
     rule="Scenario: one writer task, one reader task, one peer task on one wrapper; distinct = distinct (variant, op sequence, fragmentation, schedule).")
-PROPS["C04"] = dict(T(16000, 40, 800000, 900),
+PROPS["C04"] = dict(T(20000, 60, 800000, 900),
     text="An encoder channel and a decoder channel joined by the simulated connection (or, for decoder configurations the shipped encoder cannot produce, a peer feeding the harness' reference wire in tape-chosen pieces): length-field 1/2/4/8 x both byte orders x strip counts, stand-alone prepender with its matching decoder, offset/adjustment configurations, varint, delimiter, fixed length; 1-8 payloads of sizes around 255/256, 65535/65536, the configured maximum, pool classes; carriers []byte, *bytes.Buffer, bytes.Reader, string, fragmenting reader; the decoder reads through byte-wise / random / mixed fragmentation while the encoder is still writing, so it blocks mid-header and mid-body. Oracle: every encode call either raises and emits nothing or emits exactly the reference encoding; delivered frames equal the reference decode in order, one per frame, and the stream offset after each frame equals the frame end.",
     note=NOTE + " The harness' reference encoder/decoder (sim/harness/frames.go) is written independently of the codecs. Payload values are generated input; what simulation decides is the fragmentation/blocking/stream-position half.",
     rule="Scenario: codec configuration, payload sizes/carriers, feed pieces and read fragmentation from the tape.")
 
-PROPS["C08"] = dict(T(16000, 40, 800000, 900), level="fault_enumeration",
+PROPS["C08"] = dict(T(40000, 60, 800000, 900), level="fault_enumeration",
     text="One decoder configuration per run; a peer feeds a byte stream in tape-chosen pieces - valid frames cut at a tape-chosen point (frame boundary, inside a header, right after a header, inside a body), random bytes, or valid frames with one mutated header (maximal / just-over-maximum / zero / sign-bit length fields, over-long varints, missing delimiter) - and then ends the stream (EOF, reset, or a timeout followed by EOF) under whole / byte-wise / random read fragmentation. A strict sink below the decoder reads every delivered frame to its end, raising read errors like the shipped message codecs do. Oracle: every frame delivered as complete is, in order, one the harness' reference decoder also finds in the bytes actually received and respects the maximum/fixed size; deliveries do not continue after the stream ended; exceptions are never runtime faults; at quiescence the channel is closed.",
     note=NOTE + " 'Complete' is judged by a sink that reads each lazy frame reader to its end; a frame whose reader reports an error is not counted as delivered.",
     technique="deterministic simulation with fault injection: seeded stream corruption, stream end points (crash points) and read fragmentation against a reference decoder",
     rule="Scenario: decoder configuration x stream construction x cut point x end kind x fragmentation, all from the tape.")
 
-PROPS["C16"] = dict(T(12000, 40, 600000, 900),
+PROPS["C16"] = dict(T(16000, 60, 600000, 900),
     text="Text and JSON codecs on top of a frame codec (length-field, varint, delimiter) on an encoder channel joined to a decoder channel, or with a peer injecting reference-framed frames (truncated objects, non-object top levels, a valid object followed by blanks/garbage/a second object inside the same frame, frames larger than encoding/json's read buffer) in tape-chosen pieces under byte-wise/random read fragmentation. Both codecs consume a lazy frame reader over the transport, so how much of a frame is pulled depends on fragmentation. Oracle: received sequence equals the sent sequence (canonical JSON, exact numbers with UseNumber), a frame that does not begin with a complete valid object raises and delivers nothing, and after every delivered frame the stream position is at the frame end (the following frames decode correctly).",
     note=NOTE + " Value equality of encode/decode is input-driven (generated strings and trees); the stream-position and rejection clauses are what fragmentation and interleaving decide.",
     rule="Scenario: frame codec x format codec x generated values x malformed-frame injection x fragmentation from the tape.")
 
-PROPS["C15"] = dict(T(12000, 40, 600000, 900),
+PROPS["C15"] = dict(T(40000, 60, 600000, 900),
     text="Real xhttp.ServerCodec + xhttp.Handler on a sync or queued channel; a peer sends 1-5 requests (GET/POST/PUT, short and long targets, HTTP/1.0 and 1.1, Connection close/keep-alive/absent, bodies absent / Content-Length / chunked) pipelined or one by one in tape-chosen pieces under read fragmentation; the http.Handler runs a seeded program per request (reads none/half/all of the body; explicit Content-Length, chunked or neither; status; 0-3 writes of sizes around the 2048-byte buffer; explicit Flush never / after the first write / at the end). Response bytes race with the background sender and with the codec's close decision. Oracle: handler invocations equal the requests to be served (method, target, id header, body) in order, once each; net/http.ReadResponse reads back exactly one response per request with the handler's status, header and body; the connection is closed iff a request asked for it or a response is not self-delimiting, and never with unflushed response bytes.",
     note=NOTE + " Requests after the first connection-closing exchange are not expected to be served.",
     rule="Scenario: request sequence x handler programs x pipelining x fragmentation from the tape.")
